@@ -37,6 +37,9 @@ func shrinkProgram(p *spec.Program, fails func() bool, budget int) {
 		changed := false
 		// whole items
 		for i := len(p.Items) - 1; i >= 0 && len(p.Items) > 1; i-- {
+			if _, isConst := p.Items[i].(*spec.Const); isConst {
+				continue // definitions stay: removing one changes what a use means
+			}
 			saved := p.Items
 			if try(func() {
 				n := append([]spec.Item{}, saved[:i]...)
